@@ -647,8 +647,22 @@ func Rand(fn parser.Function, args []value.Primary, _ *option.Flags) (value.Prim
 	if high <= low {
 		return nil, NewFunctionInvalidArgumentError(fn, fn.Name, "the second argument must be greater than the first argument")
 	}
-	delta := high - low + 1
-	return value.NewInteger(r.Int63n(delta) + low), nil
+	// high - low + 1 does not fit into int64 when the range spans more than half of the integers.
+	span := uint64(high) - uint64(low)
+	if span < math.MaxInt64 {
+		return value.NewInteger(r.Int63n(int64(span)+1) + low), nil
+	}
+
+	v := r.Uint64()
+	if span < math.MaxUint64 {
+		n := span + 1
+		limit := math.MaxUint64 - math.MaxUint64%n
+		for limit <= v {
+			v = r.Uint64()
+		}
+		v = v % n
+	}
+	return value.NewInteger(low + int64(v)), nil
 }
 
 func execStrings1Arg(fn parser.Function, args []value.Primary, stringsf func(string) string) (value.Primary, error) {
